@@ -953,35 +953,42 @@ class RRSLRecord:
             return not self.__eq__(other)
 
         @staticmethod
-        def length(symlink_component):
-            # type: (bytes) -> int
+        def length(symlink_component, is_text=False):
+            # type: (bytes, bool) -> int
             """
             Static method to compute the length of one symlink component.
 
             Parameters:
              symlink_component - String representing one symlink component.
+             is_text - True if the string is (part of) an ordinary component,
+                       which is recorded as text even if it reads '.' or '..'.
             Returns:
              Length of symlink component plus overhead.
             """
             length = 2
-            if symlink_component not in (b'.', b'..', b'/'):
+            if is_text or symlink_component not in (b'.', b'..', b'/'):
                 length += len(symlink_component)
 
             return length
 
         @staticmethod
-        def factory(name):
-            # type: (bytes) -> RRSLRecord.Component
+        def factory(name, is_text=False):
+            # type: (bytes, bool) -> RRSLRecord.Component
             """
             A static method to create a new, valid Component given a human
             readable name.
 
             Parameters:
              name - The name to create the Component from.
+             is_text - True if the name is (part of) an ordinary component,
+                       which is recorded as text even if it reads '.' or '..'.
             Returns:
              A new Component object representing this name.
             """
-            if name == b'.':
+            if is_text:
+                flags = 0
+                length = len(name)
+            elif name == b'.':
                 flags = 1 << 1
                 length = 0
             elif name == b'..':
@@ -1069,23 +1076,25 @@ class RRSLRecord:
 
         self._initialized = True
 
-    def add_component(self, symlink_comp):
-        # type: (bytes) -> None
+    def add_component(self, symlink_comp, is_text=False):
+        # type: (bytes, bool) -> None
         """
         Add a new component to this symlink record.
 
         Parameters:
          symlink_comp - The string to add to this symlink record.
+         is_text - True if the string is (part of) an ordinary component,
+                   which is recorded as text even if it reads '.' or '..'.
         Returns:
          Nothing.
         """
         if not self._initialized:
             raise pycdlibexception.PyCdlibInternalError('SL record not initialized')
 
-        if (self.current_length() + RRSLRecord.Component.length(symlink_comp)) > 255:
+        if (self.current_length() + RRSLRecord.Component.length(symlink_comp, is_text)) > 255:
             raise pycdlibexception.PyCdlibInvalidInput('Symlink would be longer than 255')
 
-        self.symlink_components.append(self.Component.factory(symlink_comp))
+        self.symlink_components.append(self.Component.factory(symlink_comp, is_text))
 
     def current_length(self):
         # type: () -> int
@@ -1100,11 +1109,13 @@ class RRSLRecord:
         if not self._initialized:
             raise pycdlibexception.PyCdlibInternalError('SL record not initialized')
 
-        strlist = []
+        # Only a component that is flagged as current, parent or root is
+        # recorded without its name.
+        length = RRSLRecord.header_length()
         for comp in self.symlink_components:
-            strlist.append(comp.name())
+            length += RRSLRecord.Component.length(comp.name(), (comp.flags & 0xe) == 0)
 
-        return RRSLRecord.length(strlist)
+        return length
 
     def record(self):
         # type: () -> bytes
@@ -2837,20 +2848,22 @@ class RockRidge:
                     length = 0
                     compslice = comp
                 else:
-                    complen = RRSLRecord.Component.length(comp[offset:])
+                    complen = RRSLRecord.Component.length(comp[offset:], True)
                     if complen > curr_comp_area_length:
                         length = curr_comp_area_length - 2
                     else:
                         length = complen
                     compslice = comp[offset:offset + length]
 
-                curr_sl.add_component(compslice)
+                # A slice of an ordinary component is text, even if the slice
+                # happens to read '.' or '..'.
+                curr_sl.add_component(compslice, not special)
 
                 if sl_in_dr:
-                    curr_dr_len += RRSLRecord.Component.length(compslice)
+                    curr_dr_len += RRSLRecord.Component.length(compslice, not special)
                 else:
                     if self.dr_entries.ce_record is not None:
-                        self.dr_entries.ce_record.add_record(RRSLRecord.Component.length(compslice))
+                        self.dr_entries.ce_record.add_record(RRSLRecord.Component.length(compslice, not special))
 
                 offset += length
 
